@@ -369,6 +369,12 @@ def check_translation(ctx, rep, rng, tier):
     rep.extra["translation_validation_cases"] = n
 
 
+def check_primitives(ctx, rep, rng, tier):
+    """the PyPrims-level definitions the translator targets, against CPython (tools/harness/prims.py)"""
+    from harness import prims
+    prims.check_prims(ctx, rep)
+
+
 def run(ctx):
     rep, tier = ctx["rep"], ctx["tier"]
     rng = random.Random(ctx["seed"])
@@ -376,7 +382,8 @@ def run(ctx):
                        "random per class; boolean vectors of every length 0..130 x 6 patterns x both modes; names over BMP/"
                        "astral/control; time/attribute vectors with every definedness shape; non-trivial = value >= 128 / "
                        "non-empty vector; distinct by value")
-    for part in (check_translation, check_number, check_boolean, check_names, check_fixed, check_vectors, check_header_roundtrip):
+    for part in (check_primitives, check_translation, check_number, check_boolean, check_names, check_fixed, check_vectors,
+                 check_header_roundtrip):
         try:
             part(ctx, rep, rng, tier)
         except Exception as e:  # noqa
